@@ -12,39 +12,88 @@ open Dhcp
 
 /-! ### one label set -/
 
-theorem normLabels_labels (l : Label.Labels) : (normLabels l).labels = l.labels := by
-  unfold normLabels; split <;> rfl
+theorem normLabels_labels (l : Label.Labels) : (normLabels l).labels = l.labels := rfl
 
-/-- the normal form encodes to the same bytes — for ANY names, valid or not -/
+/-- the normal form encodes to the same bytes — for ANY set: names valid or not,
+`original` nil, parseable or garbage -/
 theorem normLabels_toBytes (l : Label.Labels) : (normLabels l).toBytes = l.toBytes := by
   cases l with
   | mk orig ns =>
-    cases orig with
-    | some b => rfl
-    | none =>
-      rw [Label.toBytes_original_none ⟨none, ns⟩ rfl]
-      simp only [normLabels, Label.Labels.toBytes, Label.goBytes]
-      split
-      · exact ite_self _
-      · rfl
+    simp only [normLabels]
+    generalize ht : (Label.Labels.mk orig ns).toBytes = t
+    -- the three ways `t` can arise
+    have key : (Label.labelsFromBytes t = .ok ns) ∨ t = Label.labelsToBytes ns ∨
+        (∀ ns', Label.labelsFromBytes t ≠ .ok ns') := by
+      subst ht
+      unfold Label.Labels.toBytes
+      simp only
+      cases hr : Label.labelsFromBytes (Label.goBytes orig) with
+      | ok ns0 =>
+        simp only
+        by_cases hc : orig ≠ none ∧ ns0 = ns
+        · rw [if_pos hc]; left; rw [hr, hc.2]
+        · rw [if_neg hc]; right; left; rfl
+      | err =>
+        simp only
+        right; right; intro ns' h; rw [hr] at h; cases h
+      | panic => exact absurd hr (Label.labelsFromBytes_ne_panic _)
+    unfold Label.Labels.toBytes
+    simp only [Label.goBytes]
+    rcases key with h | h | h
+    · rw [h]; simp
+    · cases hr : Label.labelsFromBytes t with
+      | ok ns' => simp only; split <;> simp [h]
+      | err => rfl
+      | panic => rfl
+    · cases hr : Label.labelsFromBytes t with
+      | ok ns' => exact absurd hr (h ns')
+      | err => rfl
+      | panic => rfl
 
 theorem normLabels_of_LabelsOK {l : Label.Labels} (h : LabelsOK l) : normLabels l = l := by
-  obtain ⟨b, hb, _⟩ := h
-  simp [normLabels, hb]
+  obtain ⟨b, hb, hp⟩ := h
+  cases l with
+  | mk orig ns =>
+    simp only at hb hp
+    subst hb
+    have : (Label.Labels.mk (some b) ns).toBytes = b := by
+      simp [Label.Labels.toBytes, Label.goBytes, hp]
+    simp only [normLabels, this]
 
 theorem normLabels_idem (l : Label.Labels) : normLabels (normLabels l) = normLabels l := by
-  cases l with
-  | mk orig ns => cases orig <;> rfl
+  show Label.Labels.mk (some (normLabels l).toBytes) (normLabels l).labels = _
+  rw [normLabels_toBytes, normLabels_labels]; rfl
 
-/-- a fresh set of valid names normalises to a decoded-form set (C19 round trip) -/
-theorem LabelsOK_norm {l : Label.Labels} (h : LabelsOK' l) : LabelsOK (normLabels l) := by
-  rcases h with h | ⟨ho, hv⟩
-  · rw [normLabels_of_LabelsOK h]; exact h
-  · cases l with
-    | mk orig ns =>
-      simp only at ho hv
-      subst ho
-      exact ⟨Label.labelsToBytes ns, rfl, Label.labelsFromBytes_labelsToBytes ns hv⟩
+/-- what `ToBytes` emits for a set of the extended domain decodes to its names -/
+theorem labelsFromBytes_toBytes_of_OK' {l : Label.Labels} (h : LabelsOK' l) :
+    Label.labelsFromBytes l.toBytes = .ok l.labels := by
+  cases l with
+  | mk orig ns =>
+    rcases h with ⟨b, hb, hp⟩ | ⟨hv, ho⟩
+    · simp only at hb hp
+      subst hb
+      have : (Label.Labels.mk (some b) ns).toBytes = b := by
+        simp [Label.Labels.toBytes, Label.goBytes, hp]
+      rw [this]; exact hp
+    · simp only at hv ho
+      rcases ho with ho | ⟨b, ns0, ho, hp⟩
+      · subst ho
+        rw [Label.toBytes_original_none ⟨none, ns⟩ rfl]
+        exact Label.labelsFromBytes_labelsToBytes ns hv
+      · subst ho
+        by_cases hc : ns0 = ns
+        · subst hc
+          have : (Label.Labels.mk (some b) ns0).toBytes = b := by
+            simp [Label.Labels.toBytes, Label.goBytes, hp]
+          rw [this]; exact hp
+        · have : (Label.Labels.mk (some b) ns).toBytes = Label.labelsToBytes ns := by
+            simp [Label.Labels.toBytes, Label.goBytes, hp, hc]
+          rw [this]; exact Label.labelsFromBytes_labelsToBytes ns hv
+
+/-- a set of the extended domain (fresh, or decoded and edited, valid names)
+normalises to a decoded-form set (C19 round trip) -/
+theorem LabelsOK_norm {l : Label.Labels} (h : LabelsOK' l) : LabelsOK (normLabels l) :=
+  ⟨l.toBytes, rfl, labelsFromBytes_toBytes_of_OK' h⟩
 
 /-! ### NTP suboptions -/
 
